@@ -95,9 +95,61 @@ def g4_none_contradiction(prog: Program) -> List[str]:
     return sorted(set(out))
 
 
+def g5_nullable_fields(prog: Program) -> List[str]:
+    """fields that a class initialises to None (`self.x = None` / `self.x: Optional[..] = None` in __init__) and that some function of
+    the package dereferences (subscript, iteration, attribute/method access, arithmetic, len) without a dominating not-None fact."""
+    nullable: Dict[str, Set[str]] = {}
+    for mod in prog.modules.values():
+        for cls in mod.classes.values():
+            init = cls.methods.get("__init__")
+            if init is None:
+                continue
+            for n in walk(init.node):
+                if isinstance(n, (ast.Assign, ast.AnnAssign)) and n.value is not None and isinstance(n.value, ast.Constant) and n.value.value is None:
+                    for t in (n.targets if isinstance(n, ast.Assign) else [n.target]):
+                        if isinstance(t, ast.Attribute) and isinstance(t.value, ast.Name) and t.value.id == "self":
+                            nullable.setdefault(t.attr, set()).add(cls.name)
+    out = []
+    for f in prog.all_funcs:
+        pm = None
+        for n in walk(f.node):
+            if not (isinstance(n, ast.Attribute) and isinstance(n.ctx, ast.Load) and n.attr in nullable):
+                continue
+            if pm is None:
+                from .model import parent_map
+                pm = parent_map(f.node)
+            par = pm.get(n)
+            deref = None
+            if isinstance(par, ast.Subscript) and par.value is n:
+                deref = "subscript"
+            elif isinstance(par, ast.Attribute) and par.value is n:
+                deref = "attribute"
+            elif isinstance(par, (ast.For, ast.comprehension)) and par.iter is n:
+                deref = "iteration"
+            elif isinstance(par, ast.BinOp):
+                deref = "arithmetic"
+            elif isinstance(par, ast.Call) and n in par.args and isinstance(par.func, ast.Name) and par.func.id in ("len", "sum", "max", "min", "sorted", "enumerate", "zip"):
+                deref = par.func.id
+            if deref is None:
+                continue
+            try:
+                facts = q.facts_at(f, n)
+            except Exception:
+                continue
+            if q.known_not_none(facts, n):
+                continue
+            # assigned a non-None value earlier in the same function on every path?  (cheap: any assignment in the function)
+            assigned_here = any(isinstance(a, (ast.Assign, ast.AnnAssign)) and any(isinstance(t, ast.Attribute) and norm(t) == norm(n) for t in (a.targets if isinstance(a, ast.Assign) else [a.target]))
+                                for a in walk(f.node))
+            if assigned_here:
+                continue
+            out.append(f"G5 {f.qname}:{n.lineno} `{norm(n)}` ({'/'.join(sorted(nullable[n.attr]))}.{n.attr} starts as None) {deref} without a not-None guard: `{norm(par)[:70]}`")
+    return sorted(set(out))
+
+
 def run(repo: str = "/repo") -> int:
     prog = Program(repo)
-    for name, fn in (("G1", g1_unbound), ("G2", g2_unused_params), ("G4", g4_none_contradiction)):
+    for name, fn in (("G1", g1_unbound), ("G2", g2_unused_params), ("G4", g4_none_contradiction), ("G5", g5_nullable_fields)):
         res = fn(prog)
         print(f"== {name}: {len(res)} candidates")
         for r in res:
